@@ -3,6 +3,8 @@ package keeper
 import (
 	"cosmossdk.io/math"
 	sdk "github.com/cosmos/cosmos-sdk/types"
+
+	"github.com/sunriselayer/sunrise/x/liquiditypool/types"
 )
 
 func (k Keeper) AllocateIncentive(ctx sdk.Context, poolId uint64, sender sdk.AccAddress, incentiveCoins sdk.Coins) error {
@@ -19,11 +21,16 @@ func (k Keeper) AllocateIncentive(ctx sdk.Context, poolId uint64, sender sdk.Acc
 	if err != nil {
 		return err
 	}
-	feeGrowth := sdk.NewDecCoinsFromCoins(incentiveCoins...).QuoDecTruncate(liquidity)
-	err = k.AddToAccumulator(ctx, feeAccumulator, feeGrowth)
-	if err != nil {
+	// no in-range liquidity: nobody can earn the incentive (and the per-liquidity growth would divide by zero)
+	if !liquidity.IsPositive() {
+		return types.ErrZeroLiquidity
+	}
+
+	// move the coins first, so that a failed transfer cannot leave fee growth that no balance backs
+	if err := k.bankKeeper.SendCoins(ctx, sender, pool.GetFeesAddress(), incentiveCoins); err != nil {
 		return err
 	}
 
-	return k.bankKeeper.SendCoins(ctx, sender, pool.GetFeesAddress(), incentiveCoins)
+	feeGrowth := sdk.NewDecCoinsFromCoins(incentiveCoins...).QuoDecTruncate(liquidity)
+	return k.AddToAccumulator(ctx, feeAccumulator, feeGrowth)
 }
